@@ -11,9 +11,24 @@ from .values import (T, Ty, V, VBool, VClass, VDict, VEnum, VFunc, VInt, VList, 
                      VTuple, VUnion, Unsupported, fresh_name, sort_of, to_term, from_term, _b, _i, _s)
 
 
+RE_SEARCH = z3.Function("re_search", z3.StringSort(), z3.StringSort(), z3.BoolSort())
+RE_MATCH_OBJECT = object()
+
+
 def call_builtin(ex: Any, fv: VFunc, args: List[V], kwargs: Dict[str, V], st: State, node: ast.AST) -> Iterator[Tuple[V, State]]:
     f = fv.pyobj
     name = fv.name or getattr(f, "__name__", "")
+    import re as _re
+    if f in (_re.match, _re.fullmatch) and len(args) == 2 and not kwargs and all(isinstance(a, VStr) for a in args):
+        # other matching functions: other relations (a text that calls them is executable, and differs from re.search)
+        m = z3.Function("re_" + f.__name__, z3.StringSort(), z3.StringSort(), z3.BoolSort())(_s(args[0]), _s(args[1]))
+        yield VUnion([(z3.Not(m), VNone()), (m, VPy(RE_MATCH_OBJECT))]), st
+        return
+    if f is _re.search and len(args) == 2 and not kwargs and all(isinstance(a, VStr) for a in args):
+        # re.search(pattern, text): the match object is opaque; whether there is one is an uninterpreted relation of the two strings
+        m = RE_SEARCH(_s(args[0]), _s(args[1]))
+        yield VUnion([(z3.Not(m), VNone()), (m, VPy(RE_MATCH_OBJECT))]), st
+        return
     if f is isinstance:
         x, c = args
         classes = list(c.items) if isinstance(c, VTuple) else [c]
